@@ -21,6 +21,7 @@ either the grid value or the interpolated value is accepted.
 
 from __future__ import annotations
 
+import functools
 import math
 from fractions import Fraction
 
@@ -153,6 +154,7 @@ def closed_ca(obs: np.ndarray):
 # time model
 
 
+@functools.lru_cache(maxsize=4096)
 def classify_time(t: float, dt: float, tol: float, work: str) -> dict:
     """Classify the time ``t`` (already a value of the working dtype) against the grid.
 
@@ -329,7 +331,7 @@ class ReducerModel:
             vn, mn = float(vn[idx]), float(mn[idx])
             return vo + (vn - vo) * (elapsed / self.dt), mo + mn + abs(vo) + abs(vn)
 
-    def view_element(self, t: float, tol: float, work: str, idx: tuple):
+    def view_element(self, t: float, tol: float, work: str, idx: tuple, scalar: bool = False):
         """acceptable (value, magnitude) candidates for one element read at time t;
         returns (candidates, info) where info has 'decisive', 'on', 'k'"""
         c = classify_time(t, self.dt, tol, work)
@@ -351,4 +353,8 @@ class ReducerModel:
             if k >= 1:  # seen from below
                 el = float((k - q) * Fraction(self.dt)) if q < k else 0.0
                 cands.append(self.interp(k, k - 1, min(max(el, 0.0), self.dt), idx))
+            if scalar:
+                # scalar reads a rounding error above a grid point: 1 + t/dt rounds to an integer, both
+                # neighbours collapse onto sample k and the rule is applied over a whole step
+                cands.append(self.interp(k, k, self.dt, idx))
         return cands, c
